@@ -5,6 +5,7 @@
 //! part of the tie is implementation vs specification only.
 use super::{CASE_INDEX, OP_INDEX, OP_STARTED_MS, now_ms, start_watchdog};
 use roto::{FileTree, List, NoCtx, Runtime, TypedFunc};
+use rotov_harness::driver::Driver;
 use rotov_harness::{Prng, Report};
 use serde_json::json;
 use std::cell::RefCell;
@@ -378,10 +379,24 @@ pub fn random_case(seed: u64, idx: u64) -> Vec<(NOp, bool)> {
     ops
 }
 
+/// (len, capacity) of the inner variables, then of the outer variables
+type Caps = Vec<Option<(u64, u64)>>;
+
+fn caps_of(imp: &Impl) -> Caps {
+    let mut v: Caps = imp.i.iter().map(|s| s.as_ref().map(|l| (l.len() as u64, l.capacity() as u64))).collect();
+    v.extend(imp.o.iter().map(|s| s.as_ref().map(|l| (l.len() as u64, l.capacity() as u64))));
+    v
+}
+
 /// run one history; Some((step, what)) when the implementation leaves the specification
 fn run_case(f: &Funcs, ops: &[(NOp, bool)]) -> Option<(usize, String)> {
+    run_case_caps(f, ops).err()
+}
+
+fn run_case_caps(f: &Funcs, ops: &[(NOp, bool)]) -> Result<Vec<Caps>, (usize, String)> {
     let mut imp = Impl { o: vec![None; N], i: vec![None; N] };
     let mut rf = Reference { o: vec![None; N], i: vec![None; N] };
+    let mut caps = vec![];
     for (k, (op, script)) in ops.iter().enumerate() {
         OP_INDEX.store(k as u64, Ordering::SeqCst);
         OP_STARTED_MS.store(now_ms(), Ordering::SeqCst);
@@ -391,11 +406,258 @@ fn run_case(f: &Funcs, ops: &[(NOp, bool)]) -> Option<(usize, String)> {
         let want = rf.step(op);
         let wobs = rf.observe();
         if got != want {
-            return Some((k, format!("result {got}, nested shared vectors give {want}")));
+            return Err((k, format!("result {got}, nested shared vectors give {want}")));
         }
         if gobs != wobs {
-            return Some((k, format!("contents {gobs}, nested shared vectors hold {wobs}")));
+            return Err((k, format!("contents {gobs}, nested shared vectors hold {wobs}")));
         }
+        caps.push(caps_of(&imp));
+    }
+    Ok(caps)
+}
+
+// ---------------------------------------------------------------- nested histories on the flat Lean model
+//
+// An element of a `List<List<u64>>` is an `ErasedList` handle, which is what a
+// handle variable of the flat model is. A nested history is compiled into a flat
+// one: inner variables are the model's variables 0..3, outer variables 3..6,
+// variable 6 is a temporary, and every element of an outer list gets a fresh
+// variable `k` (the outer list holds the numbers `k`):
+//   outer.push(inner)        = c:k:inner  p:outer:k
+//   inner' = outer.get(j)    = c:inner':k_j
+//   outer.contains(&inner)   = the `==` of k_0, k_1, … with inner until one is true
+//   a == b                   = same list, or lengths, or the `==` of the pairs until one is false
+//   a.concat(&b)             = a new list receiving a clone of every element of a, then of b
+//   dropping the last handle of an outer list drops every k it holds
+// The model's state after every nested operation must show the implementation's
+// lengths, capacities and nested contents.
+
+struct Compiled {
+    toks: Vec<String>,
+    nslots: usize,
+    /// per nested operation: expected contents of the 6 variables
+    /// (inner: contents; outer: contents of contents) as the reference gives them
+    expect: Vec<(Vec<Option<Vec<u64>>>, Vec<Option<Vec<Vec<u64>>>>, usize)>,
+}
+
+fn compile_flat(ops: &[(NOp, bool)]) -> Compiled {
+    use std::collections::HashMap;
+    const TMP: usize = 6;
+    let mut rf = Reference { o: vec![None; N], i: vec![None; N] };
+    let mut toks: Vec<String> = vec![];
+    let mut next = TMP + 1;
+    // outer allocation ↦ (its element variables, created by a script)
+    let mut elems: HashMap<*const RefCell<Vec<RInner>>, (Vec<usize>, bool)> = HashMap::new();
+    let mut expect = vec![];
+    let ptr = |r: &ROuter| Rc::as_ptr(r);
+    let holders = |rf: &Reference, r: &ROuter| rf.o.iter().filter(|s| s.as_ref().is_some_and(|x| Rc::ptr_eq(x, r))).count();
+    for (op, script) in ops {
+        let eqt = |by_script: bool, a: usize, b: usize| if by_script { format!("~:{a}:{b}") } else { format!("=:{a}:{b}") };
+        // the outer list a variable is about to lose: its elements die with its last handle
+        let mut dying: Option<Vec<usize>> = None;
+        let mut lose = |rf: &Reference, d: usize, elems: &mut HashMap<*const RefCell<Vec<RInner>>, (Vec<usize>, bool)>, keep: Option<&ROuter>| {
+            if let Some(old) = &rf.o[d] {
+                let kept = keep.is_some_and(|k| Rc::ptr_eq(k, old));
+                if !kept && holders(rf, old) == 1 {
+                    dying = elems.remove(&ptr(old)).map(|e| e.0);
+                }
+            }
+        };
+        match op {
+            NOp::NewO(d) => {
+                lose(&rf, *d, &mut elems, None);
+                toks.push(format!("n:{}", 3 + d));
+            }
+            NOp::NewI(d, xs) => toks.push(format!("f:{d}:{}", nats(xs))),
+            NOp::CloneO(d, s) => {
+                let src = rf.o[*s].clone();
+                lose(&rf, *d, &mut elems, src.as_ref());
+                toks.push(format!("c:{}:{}", 3 + d, 3 + s));
+            }
+            NOp::CloneI(d, s) => toks.push(format!("c:{d}:{s}")),
+            NOp::DropO(h) => {
+                lose(&rf, *h, &mut elems, None);
+                toks.push(format!("d:{}", 3 + h));
+            }
+            NOp::DropI(h) => toks.push(format!("d:{h}")),
+            NOp::PushI(h, v) => toks.push(format!("p:{h}:{v}")),
+            NOp::PushO(o, i) => {
+                let k = next;
+                next += 1;
+                toks.push(format!("c:{k}:{i}"));
+                toks.push(format!("p:{}:{k}", 3 + o));
+                elems.get_mut(&ptr(rf.o[*o].as_ref().unwrap())).unwrap().0.push(k);
+            }
+            NOp::GetO(d, o, idx) => {
+                let e = &elems[&ptr(rf.o[*o].as_ref().unwrap())].0;
+                if let Some(k) = usize::try_from(*idx).ok().and_then(|j| e.get(j)) {
+                    toks.push(format!("c:{d}:{k}"));
+                }
+            }
+            NOp::ContainsO(o, i) | NOp::IndexO(o, i) => {
+                let ro = rf.o[*o].clone().unwrap();
+                let (e, by_script) = elems[&ptr(&ro)].clone();
+                let item = rf.i[*i].clone().unwrap();
+                for (j, k) in e.iter().enumerate() {
+                    toks.push(eqt(by_script, *k, *i));
+                    if req(&ro.borrow()[j], &item) {
+                        break;
+                    }
+                }
+            }
+            NOp::EqO(a, b) => {
+                let (ra, rb) = (rf.o[*a].clone().unwrap(), rf.o[*b].clone().unwrap());
+                if !Rc::ptr_eq(&ra, &rb) && ra.borrow().len() == rb.borrow().len() {
+                    let (ea, by_script) = elems[&ptr(&ra)].clone();
+                    let eb = elems[&ptr(&rb)].0.clone();
+                    // from Rust the elements are compared by the typed `==`, from a script by the
+                    // equality function of `self`'s element type
+                    let kind = if *script { by_script } else { false };
+                    for j in 0..ea.len() {
+                        toks.push(eqt(kind, ea[j], eb[j]));
+                        if !req(&ra.borrow()[j], &rb.borrow()[j]) {
+                            break;
+                        }
+                    }
+                }
+            }
+            NOp::EqI(a, b) => toks.push(eqt(*script, *a, *b)),
+            NOp::ConcatO(d, a, b) => {
+                let (ra, rb) = (rf.o[*a].clone().unwrap(), rf.o[*b].clone().unwrap());
+                let mut ks = elems[&ptr(&ra)].0.clone();
+                ks.extend(elems[&ptr(&rb)].0.iter().copied());
+                toks.push(format!("n:{TMP}"));
+                let mut fresh = vec![];
+                for k in ks {
+                    let k2 = next;
+                    next += 1;
+                    toks.push(format!("c:{k2}:{k}"));
+                    toks.push(format!("p:{TMP}:{k2}"));
+                    fresh.push(k2);
+                }
+                lose(&rf, *d, &mut elems, None);
+                toks.push(format!("c:{}:{TMP}", 3 + d));
+                toks.push(format!("d:{TMP}"));
+                // registered below, once the reference has made the new list
+                dying = dying.map(|mut v| { v.push(usize::MAX); v }).or(Some(vec![usize::MAX]));
+                elems.insert(std::ptr::null(), (fresh, *script));
+            }
+            NOp::SwapO(o, i, j) => {
+                toks.push(format!("s:{}:{i}:{j}", 3 + o));
+                let ro = rf.o[*o].clone().unwrap();
+                let e = &mut elems.get_mut(&ptr(&ro)).unwrap().0;
+                let (i, j) = (*i as usize, *j as usize);
+                if i < e.len() && j < e.len() {
+                    e.swap(i, j);
+                }
+            }
+        }
+        // (swap above: indices beyond usize cannot occur on 64-bit)
+        if let Some(ks) = dying.take() {
+            for k in ks {
+                if k != usize::MAX {
+                    toks.push(format!("d:{k}"));
+                }
+            }
+        }
+        rf.step(op);
+        match op {
+            NOp::NewO(d) => {
+                elems.insert(ptr(rf.o[*d].as_ref().unwrap()), (vec![], *script));
+            }
+            NOp::ConcatO(d, _, _) => {
+                let (fresh, by) = elems.remove(&std::ptr::null()).unwrap();
+                elems.insert(ptr(rf.o[*d].as_ref().unwrap()), (fresh, by));
+            }
+            _ => {}
+        }
+        toks.push("!".into());
+        expect.push((
+            rf.i.iter().map(|s| s.as_ref().map(|l| l.borrow().clone())).collect(),
+            rf.o.iter().map(|s| s.as_ref().map(|l| l.borrow().iter().map(|e| e.borrow().clone()).collect())).collect(),
+            // element handles that exist: those of the live outer lists
+            elems.values().map(|e| e.0.len()).sum(),
+        ));
+    }
+    Compiled { toks, nslots: next, expect }
+}
+
+/// compare the model's dumps with the reference contents and the implementation's capacities
+fn check_model(drv: &mut Driver, ops: &[(NOp, bool)], caps: &[Caps]) -> Option<String> {
+    let c = compile_flat(ops);
+    let ans = drv.ask(&format!("c15 runm 8 {} {}", c.nslots, c.toks.join(" ")));
+    if ans == "bad-op" {
+        return Some("the driver rejected the compiled history".into());
+    }
+    let mut step = 0usize;
+    for rec in ans.split('|') {
+        if let Some(f) = rec.strip_prefix("F:") {
+            return Some(format!("the model faults with {f} before nested step {step}"));
+        }
+        let Some(dump) = rec.strip_prefix('!') else { continue };
+        let slots_s = dump.split(';').next().unwrap_or("");
+        // variable ↦ (len, cap, elems)
+        let vars: Vec<Option<(u64, u64, Vec<u64>)>> = slots_s
+            .split('/')
+            .map(|sl| {
+                if sl == "-" {
+                    return None;
+                }
+                let p: Vec<&str> = sl.split(':').collect();
+                let xs = if p.get(2).is_none_or(|x| x.is_empty()) {
+                    vec![]
+                } else {
+                    p[2].split(',').filter_map(|x| x.parse().ok()).collect()
+                };
+                Some((p[0].parse().unwrap_or(u64::MAX), p.get(1).and_then(|x| x.parse().ok()).unwrap_or(u64::MAX), xs))
+            })
+            .collect();
+        let (ei, eo, nelems) = &c.expect[step];
+        let bound_elems = vars.iter().skip(7).filter(|v| v.is_some()).count();
+        if bound_elems != *nelems {
+            return Some(format!(
+                "nested step {step}: {bound_elems} element handles are alive in the model, the live outer lists hold {nelems}"
+            ));
+        }
+        for h in 0..N {
+            let m = vars.get(h).cloned().flatten();
+            match (&ei[h], &m) {
+                (None, None) => {}
+                (Some(w), Some((len, cap, xs))) => {
+                    if xs != w {
+                        return Some(format!("nested step {step}: inner variable {h}: model holds {xs:?}, shared vectors hold {w:?}"));
+                    }
+                    if caps[step][h] != Some((*len, *cap)) {
+                        return Some(format!("nested step {step}: inner variable {h}: model len/capacity {len}/{cap}, implementation {:?}", caps[step][h]));
+                    }
+                }
+                _ => return Some(format!("nested step {step}: inner variable {h} bound in one, unbound in the other")),
+            }
+            let m = vars.get(3 + h).cloned().flatten();
+            match (&eo[h], &m) {
+                (None, None) => {}
+                (Some(w), Some((len, cap, ks))) => {
+                    let got: Option<Vec<Vec<u64>>> = ks
+                        .iter()
+                        .map(|k| vars.get(*k as usize).cloned().flatten().map(|v| v.2))
+                        .collect();
+                    if got.as_ref() != Some(w) {
+                        return Some(format!("nested step {step}: outer variable {h}: model holds {got:?}, shared vectors hold {w:?}"));
+                    }
+                    if caps[step][3 + h] != Some((*len, *cap)) {
+                        return Some(format!("nested step {step}: outer variable {h}: model len/capacity {len}/{cap}, implementation {:?}", caps[step][3 + h]));
+                    }
+                }
+                _ => return Some(format!("nested step {step}: outer variable {h} bound in one, unbound in the other")),
+            }
+        }
+        if vars.get(6).is_some_and(|t| t.is_some()) {
+            return Some(format!("nested step {step}: the temporary is still bound in the model"));
+        }
+        step += 1;
+    }
+    if step != c.expect.len() {
+        return Some(format!("the driver answered {step} dumps for {} nested steps", c.expect.len()));
     }
     None
 }
@@ -454,6 +716,7 @@ pub fn worker(seed: u64, from: u64, n: u64, one: Option<&str>) {
     start_watchdog();
     let mut rep = Report::default();
     let f = compile();
+    let mut drv: Option<Driver> = None;
     let cases: Vec<(u64, Vec<(NOp, bool)>)> = match one {
         Some(t) => match parse_case(t) {
             Some(c) => vec![(0, executable(c))],
@@ -474,6 +737,22 @@ pub fn worker(seed: u64, from: u64, n: u64, one: Option<&str>) {
             rep.class(format!("nestedrand/{}/{}", op.kind(), if *s { "s" } else { "r" }));
         }
         rep.hist("nested-length", match ops.len() { 0..=20 => "1-20", 21..=60 => "21-60", _ => "61-120" });
+        match run_case_caps(&f, &ops) {
+            Ok(caps) => {
+                if drv.is_none() {
+                    drv = Driver::spawn().ok();
+                }
+                if let Some(d) = drv.as_mut() {
+                    if let Some(what) = check_model(d, &ops, &caps) {
+                        rep.mismatch(
+                            &format!("nested history as handle variables of the flat model: {what}"),
+                            json!({"nested_ops": case_text(&ops)}),
+                        );
+                    }
+                }
+            }
+            Err(_) => {}
+        }
         if let Some((k, what)) = run_case(&f, &ops) {
             // cut after the failing step, then delete single operations greedily
             let mut cur: Vec<(NOp, bool)> = ops[..=k].to_vec();
